@@ -182,6 +182,22 @@ func (s *vfShapes) decorate(f []string, req *http.Request) (*http.Request, bool)
 		case "ipnoauto":
 			leaf, ca = s.certs["ipnoauto"], s.roleCA
 			req.RemoteAddr = "10.1.2.3:4321"
+		case "ipxff", "ipxri":
+			// outside the netblocks: the TCP peer is the loopback address; only a client-supplied
+			// header names an address inside them
+			leaf, ca = s.certs["ip"], s.roleCA
+			req.RemoteAddr = "127.0.0.1:4321"
+			if p[0] == "ipxff" {
+				req.Header.Set("X-Forwarded-For", "10.1.2.3")
+			} else {
+				req.Header.Set("X-Real-Ip", "10.1.2.3")
+			}
+		case "ipinhdr":
+			// inside the netblocks, with a header naming an address outside them
+			leaf, ca = s.certs["ip"], s.roleCA
+			req.RemoteAddr = "10.1.2.3:4321"
+			req.Header.Set("X-Forwarded-For", "192.168.1.1")
+			req.Header.Set("X-Real-Ip", "192.168.1.1")
 		default:
 			return nil, false
 		}
